@@ -11,7 +11,7 @@ STYLES = ['canon', 'lf', 'nospace', 'xspace', 'lower', 'upper', 'fold', 'dup',
 FRAMINGS = ['cl', 'cl0', 'chunked1', 'chunked_ext', 'chunked_lf', 'close',
             'overrun', 'n204', 'n304', 'n304cl', 'headcl', 'headte', 'te_cl',
             'http10', 'connclose', 'badcl', 'n404', 'n205chunked', 'n205cl', 'overrun_resp',
-            'chunked_uc', 'chunked_ows']
+            'chunked_uc', 'chunked_ows', 'te_split', 'interim103', 'interim100x2']
 BODIES = ['text', 'empty', 'binary', 'gzip', 'deflate', 'rawdeflate', 'mime']
 
 BODY_BYTES = {
@@ -170,6 +170,13 @@ def make(style, framing, body):
         h = len(wire) // 2
         parts = [p for p in (wire[:h], wire[h:]) if p]
         payload = b''.join(chunk(p) for p in parts) + b'0\r\nX-Trailer: t1\r\n\r\n'
+    elif framing == 'te_split':
+        # two Transfer-Encoding field lines = one comma separated list (RFC 7230 3.2.2)
+        fields.append(('Transfer-Encoding', ''))
+        fields.append(('Transfer-Encoding', 'chunked'))
+        payload = (chunk(wire) if wire else b'') + b'0\r\n\r\n'
+    elif framing in ('interim103', 'interim100x2'):
+        fields.append(('Content-Length', str(len(wire))))
     elif framing == 'chunked_lf':
         fields.append(('Transfer-Encoding', 'chunked'))
         payload = (chunk(wire, eol=b'\n') if wire else b'') + b'0\n\n'
@@ -230,6 +237,10 @@ def make(style, framing, body):
     else:
         raise KeyError(framing)
     head = fmt_headers(style, '%s %d %s' % (version, status, reason), fields)
+    if framing == 'interim103':
+        head = b'HTTP/1.1 103 Early Hints\r\nLink: </style.css>; rel=preload\r\n\r\n' + head
+    elif framing == 'interim100x2':
+        head = b'HTTP/1.1 100 Continue\r\n\r\nHTTP/1.1 102 Processing\r\nX-P: 1\r\n\r\n' + head
     data = head + payload + surplus
     return dict(response=data.decode('latin-1'), close=close, method=method,
                 expect=dict(status=status, body=expect_body.decode('latin-1'),
